@@ -39,6 +39,9 @@ def rows_of(out):
             cells = []
             for j in range(out.shape[1]):
                 c = out.iloc[i, j]
+                if isinstance(c, dict):        # bags of words handed out as plain dictionaries
+                    cells += [repr(sorted((int(k), int(v)) for k, v in c.items())), "|"]
+                    continue
                 cells += [repr(x) for x in _q(np.asarray(c, dtype=float).ravel())] + ["|"]
             rows.append(fp(cells))
         return rows
@@ -54,7 +57,34 @@ def panel_for(entry, n, seed):
     ncol = E.ncol(entry)
     noisy = entry["kind"] in ("classifier", "regressor")
     X, y = E.make_panel(n, ncol, entry.get("tp", 12), seed, noise=2.0 if noisy else 0.5, unequal=bool(entry.get("unequal")))
+    if entry.get("static"):
+        # a primitive (static) column next to the series column, unknown for some instances (not for the first)
+        X["static"] = [np.nan if i % 3 == 1 else 1.5 + i for i in range(n)]
+        X.index = [50 - 3 * i for i in range(n)]         # row labels in descending order
     return X, y
+
+
+class CoerceTo3D:
+    """What every array-based panel estimator does first: check_X(X, coerce_to_numpy=True). Nothing is learned."""
+
+    def fit(self, X, y=None):
+        return self
+
+    def transform(self, X):
+        from sktime.utils.validation.panel import check_X
+        return check_X(X, coerce_to_numpy=True)
+
+
+def local_entries():
+    from sktime.transformations.panel.dictionary_based import SAX
+    return [{"name": "sax_dict", "kind": "panel-transformer", "methods": ["transform"], "rowwise": True, "multivariate": False,
+             "factory": lambda: SAX(word_length=4, alphabet_size=3, window_size=6, return_pandas_data_series=False)},
+            {"name": "coerce_static", "kind": "panel-transformer", "methods": ["transform"], "rowwise": True,
+             "multivariate": True, "static": True, "factory": CoerceTo3D}]
+
+
+def all_entries():
+    return E.panel_transformers() + E.classifiers() + E.regressors() + local_entries()
 
 
 class Fitted:
@@ -104,7 +134,7 @@ def run(ctx):
         raise T.TLCError("no transformations")
     ctx.notes.append("input transformations emitted by TLC: %d" % len(trans))
     ctx.exhaustive = False
-    entries = E.panel_transformers() + E.classifiers() + E.regressors()
+    entries = all_entries()
     recs = []
     for ei, entry in enumerate(entries):
         slow = entry.get("cost") == "slow"
@@ -127,7 +157,7 @@ def run(ctx):
                         except Exception:
                             pass
                 Xb, base = base_cache[n]
-                if entry.get("unequal"):      # unequal-length panels only exist as nested frames
+                if entry.get("unequal") or entry.get("static"):      # unequal-length / mixed panels only exist as nested frames
                     t = dict(t, fitc="nested", applyc="nested")
                 t = dict(t, keep=bool(len(recs) % 2))      # every other selection keeps its row labels, as X.iloc[...] leaves them
                 Xt = Xb.iloc[[s - 1 for s in t["src"]]]
@@ -167,9 +197,9 @@ def run(ctx):
 
 def replay(ctx, doc):
     sc = doc["scenario"]
-    entry = [e for e in E.panel_transformers() + E.classifiers() + E.regressors() if e["name"] == sc["estimator"]][0]
+    entry = [e for e in all_entries() if e["name"] == sc["estimator"]][0]
     t = sc["transformation"]
-    ei = [e["name"] for e in E.panel_transformers() + E.classifiers() + E.regressors()].index(entry["name"])
+    ei = [e["name"] for e in all_entries()].index(entry["name"])
     fitted = Fitted(entry, ctx.seed + ei)
     Xb, _ = panel_for(entry, t["n"], ctx.seed + ei)
     base = apply(fitted.get("nested"), entry, Xb)
